@@ -394,9 +394,15 @@ def normSuffix (d : Str) : List Str :=
     else [cDot :: d ++ [cDollar], cHat :: d ++ [cDollar]]
   else []
 
-/-- … to `toBuildAc` for one `keyword` pattern (after the `fix:` commit: a keyword with a byte outside
-the Aho-Corasick alphabet is skipped like the other kinds). -/
-def normKeyword (d : Str) : List Str := if d.all acValid then [d] else []
+def isMarker (c : Nat) : Bool := c == cHat || c == cDollar
+
+/-- a byte a keyword may contain: the Aho-Corasick alphabet without the head / tail marks `^` `$`
+that `MatchDomainBitmap` puts around the name -/
+def kwValid (c : Nat) : Bool := acValid c && !isMarker c
+
+/-- … to `toBuildAc` for one `keyword` pattern (after the `fix:` commits: a keyword with a byte outside
+the Aho-Corasick alphabet, or with `^` / `$`, is skipped like the other kinds). -/
+def normKeyword (d : Str) : List Str := if d.all kwValid then [d] else []
 
 structure SetBuild where
   trie : List Str := []      -- toBuildTrie[i]
@@ -585,8 +591,6 @@ def Built.matchIndicesSpec (b : Built) (name : Str) (rxHits : List Nat) : List N
 
 /-! ## 6. What the pattern kinds are documented to match -/
 
-def isMarker (c : Nat) : Bool := c == cHat || c == cDollar
-
 /-- What a keyword is documented to match (stated without reference to how the code looks it up):
 a leading `^` anchors it at the start of the name, a trailing `$` at the end; the rest `k` must be
 free of those two bytes.  `^k$` = the name is `k`; `^k` = the name starts with `k`; `k$` = the name
@@ -612,7 +616,7 @@ def patMatches (kind : Kind) (p : Pat) (name : Str) (rxHits : List Nat) : Bool :
   | .suffix =>
     if p.s.head? = some cDot then p.s.isSuffixOf name
     else name == p.s || (cDot :: p.s).isSuffixOf name
-  | .keyword => kwMeaning p.s name
+  | .keyword => !p.s.isEmpty && isInfix p.s name
   | .regex => rxHits.contains p.rxId
   | .unknown => false
 
@@ -620,7 +624,7 @@ def patMatches (kind : Kind) (p : Pat) (name : Str) (rxHits : List Nat) : Bool :
 def patValid (kind : Kind) (p : Pat) : Bool :=
   match kind with
   | .full | .suffix => p.s.all domainChars.isValid
-  | .keyword => p.s.all acValid
+  | .keyword => p.s.all kwValid
   | .regex => true
   | .unknown => false
 
@@ -642,11 +646,34 @@ deriving Repr
 
 /-- the meaning of a whole configuration for set `i`: some valid pattern added under index `i`
 matches. -/
-def docMatches (log : List AddCall) (i : Nat) (name : Str) (rxHits : List Nat) : Bool :=
+def docMatchesCore (log : List AddCall) (i : Nat) (name : Str) (rxHits : List Nat) : Bool :=
   let dom := normName name
   log.any fun a => a.idx == i && a.pats.any fun p => patMatches a.kind p dom rxHits && patValid a.kind p
 
-def Matcher.replay (bitLength : Nat) (log : List AddCall) : Matcher :=
+def Matcher.replayCore (bitLength : Nat) (log : List AddCall) : Matcher :=
   log.foldl (fun m a => m.addSet a.idx a.kind a.pats) (Matcher.new bitLength)
+
+/-! ### letter case of the patterns (`d = strings.ToLower(d)` at the top of the `AddSet` loop) -/
+
+/-- `AddSet` lower-cases full / suffix / keyword patterns (ASCII, like the queried name); regexes are
+compiled as written. -/
+def lowerPats (kind : Kind) (pats : List Pat) : List Pat :=
+  match kind with
+  | .regex => pats
+  | _ => pats.map fun p => { p with s := lower p.s }
+
+def AddCall.lowered (a : AddCall) : AddCall := { a with pats := lowerPats a.kind a.pats }
+
+/-- `AddSet` as the Go code has it: lower-case, then screen and store (`Matcher.addSet`). -/
+def Matcher.addSetGo (m : Matcher) (idx : Nat) (kind : Kind) (pats : List Pat) : Matcher :=
+  m.addSet idx kind (lowerPats kind pats)
+
+/-- the matcher after a sequence of `AddSet` calls -/
+def Matcher.replay (bitLength : Nat) (log : List AddCall) : Matcher :=
+  Matcher.replayCore bitLength (log.map AddCall.lowered)
+
+/-- the meaning of a configuration written in any letter case: that of its lower-cased patterns -/
+def docMatches (log : List AddCall) (i : Nat) (name : Str) (rxHits : List Nat) : Bool :=
+  docMatchesCore (log.map AddCall.lowered) i name rxHits
 
 end DaeVerif.C11
